@@ -1,7 +1,710 @@
-//! Further generator families (added incrementally).
-use crate::mach::M;
-use crate::rng::Rng;
+//! Generator families: rounding (C08), conversions (C09), comparison (C06), the validity grid
+//! (C07), spellings (C10), random programs (C01), fma triples (C11).
+use crate::gen::{load_generic, load_valid, SP_FT, SP_TT};
+use crate::mach::{A, M};
+use crate::rng::*;
 
-pub fn run(_m: &mut M, _r: &mut Rng, _family: &str, _n: u64) -> bool {
-    false
+const SP3: [&str; 3] = ["inh", "Float", "FloatCore"];
+
+fn sgn(r: &mut Rng) -> f64 {
+    if r.coin() {
+        1.0
+    } else {
+        -1.0
+    }
+}
+
+/// load a value whose integer / fraction structure is adversarial for floor/ceil/round/trunc/fract
+fn load_frac_case(m: &mut M, r: &mut Rng, d: usize) {
+    loop {
+        let s = sgn(r);
+        let (hi, lo): (f64, f64) = match r.below(14) {
+            // fraction only in hi: small numbers
+            0 => (s * (r.range(0, 1 << 20) as f64 + *r.pick(&[0.5, 0.25, 0.75, 0.0, 0.125])), lo_candidate(r, 1.0) * 1e-3),
+            // integer hi, low word integer / half / fractional / tiny
+            1 | 2 | 3 => {
+                let k = r.range(0, 70) as i32;
+                let h = s * (pow2(k) + if k > 1 { r.range(0, 3) as f64 } else { 0.0 });
+                let l = match r.below(7) {
+                    0 => 0.5,
+                    1 => -0.5,
+                    2 => sgn(r) * (r.range(1, 9) as f64 + 0.5),
+                    3 => sgn(r) * r.range(1, 1000) as f64,
+                    4 => sgn(r) * pow2(-(r.range(1, 300) as i32)),
+                    5 => sgn(r) * (r.below(1 << 30) as f64) / 1024.0,
+                    _ => 0.0,
+                };
+                (h, l)
+            }
+            // hi >= 2^53 (integer), fraction entirely in lo
+            4 | 5 => {
+                let k = r.range(53, 104) as i32;
+                let h = s * f64::from_bits((((k + 1023) as u64) << 52) | r.frac52());
+                let l = match r.below(6) {
+                    0 => sgn(r) * 0.5,
+                    1 => sgn(r) * (r.range(0, 1 << 20) as f64 + 0.5),
+                    2 => sgn(r) * (r.below(1 << 40) as f64) / 256.0,
+                    3 => sgn(r) * r.range(1, 1 << 30) as f64,
+                    4 => sgn(r) * pow2(-(r.range(1, 60) as i32)),
+                    _ => sgn(r) * (r.range(1, 1000) as f64 + pow2(-(r.range(1, 40) as i32))),
+                };
+                (h, l)
+            }
+            // half-integer hi with low word of either sign
+            6 | 7 => {
+                let h = s * (r.range(0, 1 << 30) as f64 + 0.5);
+                (h, sgn(r) * pow2(-(r.range(30, 400) as i32)) * (1.0 + r.below(4) as f64 / 4.0))
+            }
+            // 2^k +- {0.5, 1, 1.5}
+            8 => {
+                let k = r.range(1, 100) as i32;
+                (s * pow2(k), *r.pick(&[0.5, -0.5, 1.0, -1.0, 1.5, -1.5, 0.25, -0.25]))
+            }
+            // |x| < 1
+            9 => (s * r.f64_in(-60, -1).abs(), 0.0),
+            10 => {
+                let h = s * r.f64_in(-60, -1).abs();
+                (h, lo_candidate(r, h))
+            }
+            // huge: no fraction anywhere
+            11 => {
+                let h = r.f64_in(107, 200);
+                (h, lo_candidate(r, h))
+            }
+            // zeros
+            12 => (s * 0.0, sgn(r) * 0.0),
+            _ => {
+                let h = r.f64_in(-10, 110);
+                (h, lo_candidate(r, h))
+            }
+        };
+        if m.load(d, hi, lo) {
+            return;
+        }
+    }
+}
+
+pub fn frac(m: &mut M, r: &mut Rng, n: u64) {
+    for i in 0..n {
+        m.group("frac");
+        load_frac_case(m, r, 0);
+        for op in ["floor", "ceil", "trunc", "round", "fract"] {
+            let sp = if i % 3 == 0 { *r.pick(&SP3) } else { "inh" };
+            m.call("conv", op, sp, Some(1 + (r.below(5) as usize)), &[A::R(0)]);
+        }
+        if i % 5 == 0 {
+            // trunc + fract recombination, and rounding functions applied to their own results
+            m.call("conv", "trunc", "inh", Some(1), &[A::R(0)]);
+            m.call("conv", "fract", "inh", Some(2), &[A::R(0)]);
+            m.call("arith", "add", "vv", Some(3), &[A::R(1), A::R(2)]);
+            m.call("conv", "floor", "inh", Some(4), &[A::R(2)]);
+            m.call("conv", "round", "inh", Some(4), &[A::R(1)]);
+        }
+    }
+}
+
+const INT_TYPES: [(&str, u32, bool); 10] = [
+    ("i8", 8, true), ("u8", 8, false), ("i16", 16, true), ("u16", 16, false), ("i32", 32, true),
+    ("u32", 32, false), ("i64", 64, true), ("u64", 64, false), ("i128", 128, true), ("u128", 128, false),
+];
+
+fn int_arg(v: i128, ty: &'static str) -> A {
+    A::I(v < 0, v.unsigned_abs(), ty)
+}
+fn uint_arg(v: u128, ty: &'static str) -> A {
+    A::I(false, v, ty)
+}
+
+/// an adversarial integer of the given width
+fn adversarial_int(r: &mut Rng, bits: u32, signed: bool) -> (bool, u128) {
+    let maxmag: u128 = if signed { 1u128 << (bits - 1) } else if bits == 128 { u128::MAX } else { (1u128 << bits) - 1 };
+    let neg = signed && r.coin();
+    let mag: u128 = match r.below(9) {
+        0 => maxmag - r.below(4) as u128,
+        1 => r.below(4) as u128,
+        2 => {
+            // 2^k, 2^k +- 1
+            let k = r.below(bits as u64) as u32;
+            let b = 1u128 << k.min(bits - 1);
+            match r.below(3) {
+                0 => b,
+                1 => b.saturating_sub(1),
+                _ => b + 1,
+            }
+        }
+        3 | 4 if bits > 53 => {
+            // odd/even high part, remainder rounding to a tie: hi53 * 2^k + 2^(k-1) - j  (k up to 75)
+            let k = r.range(1, (bits as i64 - 53).max(1)) as u32;
+            let hi53 = (r.next() >> 11) | (1u64 << 52);
+            let rem = (1u128 << (k - 1)).wrapping_sub(r.below(3) as u128).wrapping_add(if r.coin() { 0 } else { r.below(2) as u128 });
+            let top = ((hi53 as u128) << k) | (rem & ((1u128 << k) - 1));
+            // place at the top of the type
+            let lz = top.leading_zeros();
+            let want_lz = 128 - bits + if signed { 1 } else { 0 } + r.below(3) as u32;
+            if lz >= want_lz { top } else { top >> (want_lz - lz) }
+        }
+        5 if bits > 53 => {
+            // all ones at various lengths
+            let k = r.range(54, bits as i64) as u32;
+            if k >= 128 { u128::MAX } else { (1u128 << k) - 1 }
+        }
+        6 if bits > 64 => {
+            // > 106 significant bits
+            (r.u128() | (1u128 << 127) | 1) >> r.below(8)
+        }
+        _ => {
+            let v = r.u128();
+            let sh = r.below(bits as u64) as u32;
+            (v >> (128 - bits)) >> sh
+        }
+    };
+    let mag = if signed { mag.min(if neg { maxmag } else { maxmag - 1 }) } else { mag.min(maxmag) };
+    (neg && mag != 0, mag)
+}
+
+pub fn conv(m: &mut M, r: &mut Rng, n: u64) {
+    for i in 0..n {
+        m.group("conv");
+        let (ty, bits, signed) = *r.pick(&INT_TYPES);
+        // --- From<int>
+        let (neg, mag) = adversarial_int(r, bits, signed);
+        let sp = *r.pick(&["From", "From", "FromPrimitive", "NumCast"]);
+        m.call("conv", "from_int", sp, Some(0), &[A::I(neg, mag, ty)]);
+        // round trip of the produced value
+        m.call("conv", "try_into", *r.pick(&["TryFrom_v", "TryFrom_r", "ToPrimitive"]), None, &[A::R(0), A::S(ty.to_string())]);
+        // --- TryFrom<TwoFloat> at the boundaries of the type
+        let maxp1 = if signed { 2f64.powi(bits as i32 - 1) } else { 2f64.powi(bits as i32) };
+        let minv = if signed { -maxp1 } else { 0.0 };
+        let base = *r.pick(&[maxp1, minv, 0.0, -1.0, 1.0, maxp1 / 2.0]);
+        let delta = *r.pick(&[0.0, -1.0, 1.0, -0.5, 0.5, -2.0, 1e-30, -1e-30, -0.999, 0.999, -1.5, 2.5]);
+        // base + delta as an exact double-double (the sum of two f64 is exact in a TwoFloat)
+        m.call("arith", "new_add", "inh", Some(1), &[A::F(base), A::F(delta)]);
+        let tsp = *r.pick(&["TryFrom_v", "TryFrom_r", "ToPrimitive"]);
+        m.call("conv", "try_into", tsp, None, &[A::R(1), A::S(ty.to_string())]);
+        if i % 3 == 0 {
+            // one low-word ulp around the boundary
+            let x = m.tf(1);
+            if x.lo() != 0.0 {
+                for lo2 in [next_up_mag(x.lo()), next_down_mag(x.lo())] {
+                    if m.load(2, x.hi(), lo2) {
+                        m.call("conv", "try_into", tsp, None, &[A::R(2), A::S(ty.to_string())]);
+                    }
+                }
+            }
+        }
+        if i % 4 == 0 {
+            // generic values, fractional, both signs, also for every other type
+            load_valid(m, r, 3, -5, (bits as i32) + 3);
+            let (ty2, _, _) = *r.pick(&INT_TYPES);
+            m.call("conv", "try_into", tsp, None, &[A::R(3), A::S(ty2.to_string())]);
+            m.call("conv", "try_into", "ToPrimitive", None, &[A::R(3), A::S((*r.pick(&["isize", "usize"])).to_string())]);
+        }
+        if i % 16 == 0 {
+            // non-finite and NaN-bearing values reachable through the API
+            let (a, b) = *r.pick(&[(f64::INFINITY, 1.0), (f64::NAN, 1.0), (f64::MAX, f64::MAX), (f64::NEG_INFINITY, 0.0)]);
+            m.call("arith", "new_add", "inh", Some(4), &[A::F(a), A::F(b)]);
+            m.call("conv", "try_into", tsp, None, &[A::R(4), A::S(ty.to_string())]);
+        }
+        // --- float conversions
+        if i % 3 == 1 {
+            load_valid(m, r, 5, -160, 140);
+            m.call("conv", "to_f64", *r.pick(&["From_v", "From_r", "ToPrimitive", "hi"]), None, &[A::R(5)]);
+            m.call("conv", "to_f32", *r.pick(&["From_v", "From_r", "ToPrimitive"]), None, &[A::R(5)]);
+            let f = f32::from_bits(r.next() as u32);
+            m.call("conv", "from_f32", "From", Some(6), &[A::F32(f)]);
+        }
+    }
+}
+
+/// exhaustive From<int> + round trip for the 8- and 16-bit types (slice k of 16 for 16-bit)
+pub fn conv_small(m: &mut M, _r: &mut Rng, slice: u64) {
+    m.group("conv_small");
+    for v in -128i128..=127 {
+        m.group_every(60, "conv_small");
+        m.call("conv", "from_int", "From", Some(0), &[int_arg(v, "i8")]);
+        m.call("conv", "try_into", "TryFrom_v", None, &[A::R(0), A::S("i8".into())]);
+    }
+    for v in 0u128..=255 {
+        m.group_every(60, "conv_small");
+        m.call("conv", "from_int", "From", Some(0), &[uint_arg(v, "u8")]);
+        m.call("conv", "try_into", "TryFrom_r", None, &[A::R(0), A::S("u8".into())]);
+    }
+    m.group("conv_small16");
+    let s = (slice % 16) as i128;
+    for k in 0..4096i128 {
+        m.group_every(60, "conv_small16");
+        let v = -32768 + k * 16 + s;
+        m.call("conv", "from_int", "From", Some(0), &[int_arg(v, "i16")]);
+        m.call("conv", "try_into", "TryFrom_v", None, &[A::R(0), A::S("i16".into())]);
+        let u = (k * 16 + s) as u128;
+        m.call("conv", "from_int", "From", Some(1), &[uint_arg(u, "u16")]);
+        m.call("conv", "try_into", "ToPrimitive", None, &[A::R(1), A::S("u16".into())]);
+    }
+}
+
+// ------------------------------------------------------------------------------------ C06
+fn cmp_all(m: &mut M, a: A, b: A) {
+    for op in ["eq", "ne", "lt", "le", "gt", "ge", "pcmp"] {
+        m.call("base", op, "op", None, &[a.clone(), b.clone()]);
+        m.call("base", op, "op", None, &[b.clone(), a.clone()]);
+    }
+}
+
+pub fn cmp(m: &mut M, r: &mut Rng, n: u64) {
+    for i in 0..n {
+        m.group("cmp");
+        let e = r.range(-300, 300) as i32;
+        load_valid(m, r, 0, e, e + 1);
+        // b: related to a
+        let x = m.tf(0);
+        loop {
+            let (hi, lo) = match r.below(8) {
+                0 => (x.hi(), x.lo()),
+                1 => (x.hi(), if x.lo() == 0.0 { pow2(-1074) * sgn(r) } else { next_up_mag(x.lo()) }),
+                2 => (x.hi(), next_down_mag(x.lo())),
+                3 => (x.hi(), -x.lo()),
+                4 => (x.hi(), lo_candidate(r, x.hi())),
+                5 => (if x.hi() == 0.0 { -x.hi() } else { next_up_mag(x.hi()) }, lo_candidate(r, x.hi())),
+                6 => (-x.hi(), -x.lo()),
+                _ => {
+                    let h = r.f64_in(e - 1, e + 1);
+                    (h, lo_candidate(r, h))
+                }
+            };
+            if m.load(1, hi, lo) {
+                break;
+            }
+        }
+        cmp_all(m, A::R(0), A::R(1));
+        m.call("base", "min", *r.pick(&SP3), Some(2), &[A::R(0), A::R(1)]);
+        m.call("base", "max", *r.pick(&SP3), Some(2), &[A::R(0), A::R(1)]);
+        m.call("base", "min", "inh", Some(2), &[A::R(1), A::R(0)]);
+        m.call("base", "max", "inh", Some(2), &[A::R(1), A::R(0)]);
+        // f64 comparands: hi, hi +- ulp, zeros, infinities, NaN
+        let c = match r.below(10) {
+            0 => x.hi(),
+            1 => next_up_mag(x.hi()),
+            2 => next_down_mag(x.hi()),
+            3 => 0.0,
+            4 => -0.0,
+            5 => f64::INFINITY,
+            6 => f64::NEG_INFINITY,
+            7 => f64::NAN,
+            8 => -x.hi(),
+            _ => r.f64_in(e - 1, e + 1),
+        };
+        cmp_all(m, A::R(0), A::F(c));
+        // sign queries
+        let s4 = ["inh", "Signed", "Float", "FloatCore"];
+        m.call("base", "abs", *r.pick(&s4), Some(3), &[A::R(0)]);
+        m.call("base", "signum", *r.pick(&s4), Some(3), &[A::R(0)]);
+        m.call("base", "is_sign_negative", *r.pick(&s4), None, &[A::R(0)]);
+        m.call("base", "is_sign_positive", *r.pick(&s4), None, &[A::R(0)]);
+        m.call("base", "copysign", "inh", Some(3), &[A::R(0), A::R(1)]);
+        if i % 8 == 0 {
+            // non-finite / NaN-bearing values reachable through the API against valid and each other
+            let specials: [(&str, f64, f64); 6] = [
+                ("new_add", f64::INFINITY, 1.0),       // (inf, NaN)
+                ("new_add", f64::NEG_INFINITY, 1.0),   // (-inf, NaN)
+                ("new_mul", 1e300, 1e300),             // (inf, -inf) or (inf, NaN)
+                ("new_add", f64::NAN, 1.0),            // (NaN, NaN)
+                ("new_div", 1.0, 0.0),                 // inf
+                ("new_sub", f64::MAX, -f64::MAX),      // overflow
+            ];
+            let (op1, a1, b1) = *r.pick(&specials);
+            m.call("arith", op1, "inh", Some(4), &[A::F(a1), A::F(b1)]);
+            let (op2, a2, b2) = *r.pick(&specials);
+            m.call("arith", op2, "inh", Some(5), &[A::F(a2), A::F(b2)]);
+            m.call("const", "const", "assoc", Some(6), &[A::S((*r.pick(&["INFINITY", "NEG_INFINITY", "NAN"])).to_string())]);
+            cmp_all(m, A::R(4), A::R(0));
+            cmp_all(m, A::R(4), A::R(5));
+            cmp_all(m, A::R(4), A::R(6));
+            cmp_all(m, A::R(6), A::R(0));
+            m.call("base", "min", "inh", Some(7), &[A::R(4), A::R(0)]);
+            m.call("base", "max", "inh", Some(7), &[A::R(0), A::R(4)]);
+            m.call("base", "is_valid", "inh", None, &[A::R(4)]);
+        }
+    }
+}
+
+// ------------------------------------------------------------------------------------ C07
+/// the structural grid: exponent field of a (slice-selected), mantissa classes, b around the thresholds
+pub fn grid07(m: &mut M, r: &mut Rng, slice: u64, stride: u64) {
+    m.group("grid07");
+    let mants: [u64; 7] = [0, 1, 2, (1 << 52) - 1, (1 << 52) - 2, 0, 0];
+    let mut ef: u64 = slice % stride;
+    while ef <= 2047 {
+        let full = stride == 1 || ef < 64 || ef > 1983 || (ef >= 1000 && ef < 1100);
+        let _ = full;
+        for (mi, mant0) in mants.iter().enumerate() {
+            let mant = match mi {
+                5 => (r.next() & ((1u64 << 52) - 1)) | 1,
+                6 => r.next() & ((1u64 << 52) - 1) & !1,
+                _ => *mant0,
+            };
+            for sa in [0u64, 1] {
+                m.group_every(40, "grid07");
+                let a = f64::from_bits((sa << 63) | (ef << 52) | mant);
+                let e = ef as i32 - 1023;
+                let half = pow2(e - 53);
+                let quarter = pow2(e - 54);
+                let mut bs: Vec<f64> = vec![
+                    half, next_up_mag(half), next_down_mag(half), quarter, next_up_mag(quarter), next_down_mag(quarter),
+                    0.0, pow2(-1074), f64::INFINITY, f64::NAN,
+                ];
+                if ef > 0 && ef < 2047 {
+                    bs.push(f64::from_bits((((ef as i64 - 54 - r.range(1, 20)).max(0)) as u64) << 52 | (r.next() & ((1u64 << 52) - 1))));
+                    bs.push(f64::from_bits((((ef as i64 - 53 + r.range(1, 20)).clamp(0, 2046)) as u64) << 52 | (r.next() & ((1u64 << 52) - 1))));
+                    bs.push(pow2(e - 52));
+                }
+                for b in bs {
+                    for sb in [1.0, -1.0] {
+                        let bb = if b.is_nan() { b } else { sb * b };
+                        if b.is_nan() && sb < 0.0 {
+                            continue;
+                        }
+                        m.call("base", "no_overlap", "fn", None, &[A::F(a), A::F(bb)]);
+                        if (mi + sa as usize) % 3 == 0 {
+                            let sp = if sb > 0.0 { "tuple" } else { "array" };
+                            let ok = matches!(m.call("load", "try_from", sp, Some(0), &[A::F(a), A::F(bb)]), crate::exec::Out::TF(_));
+                            if ok {
+                                m.call("base", "into_pair", *r.pick(&["tuple_v", "tuple_r", "array_v", "array_r", "hi_lo"]), None, &[A::R(0)]);
+                                m.call("base", "is_valid", "inh", None, &[A::R(0)]);
+                            }
+                        }
+                    }
+                }
+            }
+        }
+        ef += stride;
+    }
+}
+
+pub fn rand07(m: &mut M, r: &mut Rng, n: u64) {
+    m.group("rand07");
+    for i in 0..n {
+        m.group_every(60, "rand07");
+        let a = match r.below(4) {
+            0 => f64::from_bits(r.next()),
+            _ => r.f64_in(-1022, 1023),
+        };
+        let b = match r.below(5) {
+            0 => f64::from_bits(r.next()),
+            1 => r.f64_in(-1074 + 52, 1023),
+            _ => lo_candidate(r, a),
+        };
+        m.call("base", "no_overlap", "fn", None, &[A::F(a), A::F(b)]);
+        let ok = matches!(m.call("load", "try_from", if i % 2 == 0 { "tuple" } else { "array" }, Some(1), &[A::F(a), A::F(b)]), crate::exec::Out::TF(_));
+        if ok {
+            m.call("base", "is_valid", "inh", None, &[A::R(1)]);
+            m.call("base", "into_pair", *r.pick(&["tuple_v", "tuple_r", "array_v", "array_r"]), None, &[A::R(1)]);
+        }
+        if i % 50 == 0 {
+            // is_valid on values that are not valid: overflowed constructors
+            m.call("arith", "new_mul", "inh", Some(2), &[A::F(r.f64_in(600, 1000)), A::F(r.f64_in(600, 1000))]);
+            m.call("base", "is_valid", "inh", None, &[A::R(2)]);
+            m.call("arith", "new_add", "inh", Some(2), &[A::F(f64::INFINITY), A::F(1.0)]);
+            m.call("base", "is_valid", "inh", None, &[A::R(2)]);
+        }
+    }
+}
+
+// ------------------------------------------------------------------------------------ C10
+pub fn spell(m: &mut M, r: &mut Rng, n: u64) {
+    for i in 0..n {
+        m.group("spell");
+        let scen = r.below(8);
+        let (emin, emax) = if scen == 0 { (-1000, 1000) } else { (-300, 300) };
+        load_valid(m, r, 0, emin, emax);
+        match scen {
+            1 => {
+                let x = m.tf(0);
+                m.load(1, x.hi(), x.lo());
+            }
+            2 => {
+                let x = m.tf(0);
+                m.load(1, -x.hi(), -x.lo());
+            }
+            3 => {
+                load_valid(m, r, 1, -2, 3);
+            }
+            _ => load_valid(m, r, 1, emin, emax),
+        }
+        if i % 10 == 0 {
+            // non-finite operands reachable through the API
+            let (op1, a1, b1) = *r.pick(&[("new_add", f64::INFINITY, 1.0), ("new_mul", 1e300, 1e300), ("new_sub", f64::MAX, -f64::MAX), ("new_div", 1.0, 0.0)]);
+            m.call("arith", op1, "inh", Some(1), &[A::F(a1), A::F(b1)]);
+        }
+        let fz = *r.pick(&[0.0, -0.0, 1.0, -1.0, 3.0]);
+        let f = if r.below(4) == 0 { fz } else { r.f64_in(emin.max(-300), emax.min(300)) };
+        m.call("arith", "neg", "v", Some(2), &[A::R(0)]);
+        m.call("arith", "neg", "r", Some(2), &[A::R(0)]);
+        m.call("arith", "neg", "v", Some(3), &[A::R(1)]);
+        m.call("arith", "neg", "r", Some(4), &[A::R(2)]); // -(-a)
+        for op in ["add", "sub", "mul", "div", "rem"] {
+            for sp in SP_TT {
+                m.call("arith", op, sp, Some(5), &[A::R(0), A::R(1)]);
+                m.call("arith", op, sp, Some(5), &[A::R(0), A::F(f)]);
+            }
+            for sp in SP_FT {
+                m.call("arith", op, sp, Some(5), &[A::F(f), A::R(0)]);
+            }
+        }
+        // identities: b+a, a+(-b), b-a, (-a)*b
+        m.call("arith", "add", "vv", Some(5), &[A::R(1), A::R(0)]);
+        m.call("arith", "add", "vv", Some(5), &[A::R(0), A::R(3)]);
+        m.call("arith", "sub", "vv", Some(5), &[A::R(1), A::R(0)]);
+        m.call("arith", "mul", "vv", Some(5), &[A::R(2), A::R(1)]);
+        // trait wrappers
+        m.call("arith", "div", "vv", Some(5), &[A::F(1.0), A::R(0)]);
+        for sp in ["inh", "Inv_v", "Inv_r", "Float", "FloatCore", "one_div"] {
+            m.call("arith", "recip", sp, Some(5), &[A::R(0)]);
+        }
+        for op in ["abs", "signum"] {
+            for sp in ["inh", "Signed", "Float", "FloatCore"] {
+                m.call("base", op, sp, Some(5), &[A::R(0)]);
+            }
+        }
+        for op in ["is_sign_positive", "is_sign_negative"] {
+            for sp in ["inh", "Signed", "Float", "FloatCore"] {
+                m.call("base", op, sp, None, &[A::R(0)]);
+            }
+        }
+        for op in ["min", "max"] {
+            for sp in SP3 {
+                m.call("base", op, sp, Some(5), &[A::R(0), A::R(1)]);
+            }
+        }
+        for op in ["floor", "ceil", "round", "trunc", "fract"] {
+            for sp in SP3 {
+                m.call("conv", op, sp, Some(5), &[A::R(0)]);
+            }
+        }
+        for op in ["to_degrees", "to_radians"] {
+            for sp in SP3 {
+                m.call("misc", op, sp, Some(5), &[A::R(0)]);
+            }
+        }
+        // mul_add(a, b) == self*a + b ; abs_sub
+        m.call("arith", "mul", "vv", Some(6), &[A::R(0), A::R(1)]);
+        m.call("arith", "add", "vv", Some(7), &[A::R(6), A::R(2)]);
+        m.call("arith", "mul_add", "Float", Some(7), &[A::R(0), A::R(1), A::R(2)]);
+        m.call("arith", "sub", "vv", Some(6), &[A::R(0), A::R(1)]);
+        m.call("base", "abs", "inh", Some(7), &[A::R(6)]);
+        m.call("arith", "abs_sub", "Signed", Some(7), &[A::R(0), A::R(1)]);
+        m.call("arith", "abs_sub", "Float", Some(7), &[A::R(0), A::R(1)]);
+        // powi through every Pow spelling
+        let k = r.range(-20, 20);
+        for sp in ["inh", "Float", "FloatCore", "Pow_i32_vv", "Pow_i32_rv", "Pow_i32_vr", "Pow_i32_rr", "Pow_i8", "Pow_i16"] {
+            m.call("pow", "powi", sp, Some(5), &[A::R(0), A::I(k < 0, k.unsigned_abs() as u128, "i32")]);
+        }
+        let ku = r.range(0, 30);
+        for sp in ["inh", "Pow_u8", "Pow_u16"] {
+            m.call("pow", "powi", sp, Some(5), &[A::R(0), A::I(false, ku as u128, "i32")]);
+        }
+        // sums
+        if i % 4 == 0 {
+            let cnt = r.range(0, 12) as usize;
+            let mut fl = Vec::new();
+            for _ in 0..cnt {
+                fl.push(r.f64_in(-60, 60));
+            }
+            for sp in ["sum_v", "sum_r", "fold"] {
+                m.call("arith", "sum", sp, Some(5), &[A::FL(fl.clone())]);
+            }
+            let rl: Vec<usize> = (0..r.range(0, 5) as usize).map(|_| r.below(5) as usize).collect();
+            for sp in ["sum_v", "sum_r", "fold"] {
+                m.call("arith", "sum", sp, Some(5), &[A::RL(rl.clone())]);
+            }
+        }
+        // constants through every accessor
+        if i % 25 == 0 {
+            consts(m);
+        }
+    }
+}
+
+pub const CONST_NAMES: [&str; 19] = [
+    "E", "FRAC_1_PI", "FRAC_2_PI", "FRAC_2_SQRT_PI", "FRAC_1_SQRT_2", "FRAC_PI_2", "FRAC_PI_3", "FRAC_PI_4", "FRAC_PI_6",
+    "FRAC_PI_8", "LN_2", "LN_10", "LOG2_E", "LOG10_E", "LOG10_2", "LOG2_10", "PI", "SQRT_2", "TAU",
+];
+
+pub fn consts(m: &mut M) {
+    for c in CONST_NAMES {
+        m.call("const", "const", "consts", Some(7), &[A::S(c.to_string())]);
+        m.call("const", "const", "FloatConst", Some(7), &[A::S(c.to_string())]);
+    }
+    for (c, sps) in [
+        ("MAX", vec!["assoc", "Bounded", "Float", "FloatCore"]),
+        ("MIN", vec!["assoc", "Bounded", "Float", "FloatCore"]),
+        ("MIN_POSITIVE", vec!["assoc", "Float", "FloatCore"]),
+        ("EPSILON", vec!["assoc", "Float", "FloatCore"]),
+        ("NAN", vec!["assoc", "Float", "FloatCore"]),
+        ("INFINITY", vec!["assoc", "Float", "FloatCore"]),
+        ("NEG_INFINITY", vec!["assoc", "Float", "FloatCore"]),
+        ("ZERO", vec!["Zero", "default", "from"]),
+        ("ONE", vec!["One", "from"]),
+        ("NEG_ZERO", vec!["Float", "FloatCore", "from"]),
+    ] {
+        for sp in sps {
+            m.call("const", "const", sp, Some(7), &[A::S(c.to_string())]);
+        }
+    }
+}
+
+// ------------------------------------------------------------------------------------ C01
+/// random programs over 8 registers mixing all structural families, results fed back
+pub fn prog(m: &mut M, r: &mut Rng, n: u64) {
+    for _ in 0..n {
+        m.group("prog");
+        for d in 0..4 {
+            load_valid(m, r, d, -30, 30);
+        }
+        for d in 4..8 {
+            load_generic(m, r, d, -8, 8);
+        }
+        let len = r.range(50, 200);
+        for _ in 0..len {
+            let a = r.below(8) as usize;
+            let b = r.below(8) as usize;
+            let d = r.below(8) as usize;
+            // keep magnitudes inside the stated domain: rescale when a register drifts
+            let h = m.tf(a).hi();
+            if h != 0.0 && h.is_finite() && (exponent(h) > 400 || exponent(h) < -400) {
+                let k = pow2(-exponent(h));
+                m.call("arith", "mul", "vv", Some(a), &[A::R(a), A::F(k)]);
+            }
+            if !m.tf(a).hi().is_finite() || !m.tf(b).hi().is_finite() {
+                load_valid(m, r, a, -30, 30);
+                load_valid(m, r, b, -30, 30);
+            }
+            match r.below(24) {
+                0..=3 => {
+                    m.call("arith", "add", *r.pick(&SP_TT), Some(d), &[A::R(a), A::R(b)]);
+                }
+                4..=6 => {
+                    m.call("arith", "sub", *r.pick(&SP_TT), Some(d), &[A::R(a), A::R(b)]);
+                }
+                7..=9 => {
+                    m.call("arith", "mul", *r.pick(&SP_TT), Some(d), &[A::R(a), A::R(b)]);
+                }
+                10 | 11 => {
+                    if m.tf(b).hi() != 0.0 {
+                        m.call("arith", "div", *r.pick(&SP_TT), Some(d), &[A::R(a), A::R(b)]);
+                    }
+                }
+                12 => {
+                    let f = r.f64_in(-20, 20);
+                    m.call("arith", *r.pick(&["add", "sub", "mul", "div"]), *r.pick(&SP_TT), Some(d), &[A::R(a), A::F(f)]);
+                }
+                13 => {
+                    let f = r.f64_in(-20, 20);
+                    m.call("arith", *r.pick(&["add", "sub", "mul"]), *r.pick(&SP_FT), Some(d), &[A::F(f), A::R(a)]);
+                }
+                14 => {
+                    m.call("conv", *r.pick(&["floor", "ceil", "round", "trunc", "fract"]), "inh", Some(d), &[A::R(a)]);
+                }
+                15 => {
+                    m.call("base", *r.pick(&["abs", "signum"]), "inh", Some(d), &[A::R(a)]);
+                }
+                16 => {
+                    m.call("base", *r.pick(&["min", "max", "copysign"]), "inh", Some(d), &[A::R(a), A::R(b)]);
+                }
+                17 => {
+                    m.call("arith", "neg", "v", Some(d), &[A::R(a)]);
+                }
+                18 => {
+                    if m.tf(a).hi() != 0.0 {
+                        m.call("arith", "recip", "inh", Some(d), &[A::R(a)]);
+                    }
+                }
+                19 => {
+                    if m.tf(b).hi() != 0.0 && m.tf(a).hi() != 0.0 {
+                        let op = *r.pick(&["rem", "div_euclid", "rem_euclid"]);
+                        m.call("arith", op, if op == "rem" { "vv" } else { "inh" }, Some(d), &[A::R(a), A::R(b)]);
+                    }
+                }
+                20 => {
+                    let k = r.range(-6, 6);
+                    m.call("pow", "powi", "inh", Some(d), &[A::R(a), A::I(k < 0, k.unsigned_abs() as u128, "i32")]);
+                }
+                21 => {
+                    m.call("misc", *r.pick(&["to_degrees", "to_radians"]), "inh", Some(d), &[A::R(a)]);
+                }
+                22 => {
+                    let x = m.tf(a);
+                    m.call("arith", *r.pick(&["new_add", "new_sub", "new_mul"]), "inh", Some(d), &[A::F(x.hi()), A::F(m.tf(b).lo())]);
+                }
+                _ => {
+                    // integer conversion of the truncated value and back
+                    m.call("conv", "trunc", "inh", Some(d), &[A::R(a)]);
+                    let o = m.call("conv", "try_into", "TryFrom_v", None, &[A::R(d), A::S("i128".into())]);
+                    if let crate::exec::Out::I(neg, mag) = o {
+                        m.call("conv", "from_int", "From", Some(d), &[A::I(neg, mag, "i128")]);
+                    }
+                }
+            }
+            m.call("base", "is_valid", "inh", None, &[A::R(d)]);
+        }
+    }
+}
+
+// ------------------------------------------------------------------------------------ C11
+pub fn fma(m: &mut M, r: &mut Rng, n: u64) {
+    m.group("fma");
+    for _ in 0..n {
+        m.group_every(60, "fma");
+        let a = r.f64_in(-500, 500);
+        let b = r.f64_in(-500, 500);
+        let p = a * b;
+        let c = match r.below(10) {
+            0 => -p,
+            1 => -next_up_mag(p),
+            2 => {
+                // tie created by z: half an ulp of the product
+                if p.is_finite() && p != 0.0 && exponent(p) > -960 { pow2(exponent(p) - 53) * sgn(r) } else { 1.0 }
+            }
+            3 => 0.0,
+            4 => -0.0,
+            5 => r.f64_in(-1074 + 53, -1000),
+            6 => {
+                if p.is_finite() && p != 0.0 { p * pow2(-(r.range(40, 70) as i32)) * sgn(r) } else { 1.0 }
+            }
+            7 => {
+                if p.is_finite() && p != 0.0 { p * pow2(r.range(40, 70) as i32) * sgn(r) } else { 1.0 }
+            }
+            _ => r.f64_in(-600, 600),
+        };
+        m.call("misc", "fma", "hook", None, &[A::F(a), A::F(b), A::F(c)]);
+        if r.below(8) == 0 {
+            // subnormal results
+            let a2 = r.f64_in(-540, -520);
+            let b2 = r.f64_in(-540, -520);
+            m.call("misc", "fma", "hook", None, &[A::F(a2), A::F(b2), A::F(pow2(-1074) * (r.below(8) as f64) * sgn(r))]);
+            // exactly representable products
+            let a3 = (r.below(1 << 26) as f64) * sgn(r);
+            let b3 = r.below(1 << 26) as f64;
+            m.call("misc", "fma", "hook", None, &[A::F(a3), A::F(b3), A::F(pow2(-(r.range(1, 60) as i32)) * sgn(r))]);
+        }
+    }
+}
+
+pub fn run(m: &mut M, r: &mut Rng, family: &str, n: u64) -> bool {
+    match family {
+        "frac" => frac(m, r, n),
+        "conv" => conv(m, r, n),
+        "conv_small" => conv_small(m, r, m.slice),
+        "cmp" => cmp(m, r, n),
+        "grid07" => grid07(m, r, m.slice, n),
+        "rand07" => rand07(m, r, n),
+        "spell" => spell(m, r, n),
+        "prog" => prog(m, r, n),
+        "fma" => fma(m, r, n),
+        "consts" => {
+            m.group("consts");
+            consts(m)
+        }
+        _ => return crate::gen3::run(m, r, family, n),
+    }
+    true
 }
